@@ -82,14 +82,16 @@ def run_case(case, seed):
     fixed_before = {n: (m, {k: v.clone() for k, v in m.state_dict().items()}) for n, m in nas.seed.named_modules()
                     if 'sn_branches' not in n and 'sn_combiner' not in n and len(list(m.children())) == 0}
     only = case.get('only')
+    pos = -1
     for winners in itertools.product(*[range(m.n_branches) for _, m in combs]):
         for rep in range(3):
+            pos += 1    # position in the full enumeration (the same on replay of a single state)
             label = {'winners': list(winners), 'rep': rep}
             if only is not None and only != label:
                 continue
             # the way of writing rotates independently of the representative, so that every change of winner is
             # made through each of the three write paths somewhere in the enumeration
-            set_winners(combs, winners, rep, via=res['states'] // 3 + rep)
+            set_winners(combs, winners, rep, via=pos // 3 + rep)
             res['states'] += 1
             res['transitions'] += len(winners)
             res['evals'] += 1
@@ -97,8 +99,22 @@ def run_case(case, seed):
             fb = has_fblk_winner(prog, winners)
             try:
                 with torch.no_grad():
-                    y = nas(x)
-                    exp = nas.export()
+                    # three export protocols rotate through the enumeration: (0) forward, then export; (1) export straight after the
+                    # coefficients were written - no forward in between - then forward; (2) forward, then export while the SuperNet is
+                    # in TRAINING mode (export must neither use a stale selection nor touch BatchNorm statistics)
+                    proto = (pos // 3 + rep) % 3
+                    if proto == 1:
+                        exp = nas.export()
+                        nas.eval()
+                        y = nas(x)
+                    elif proto == 2:
+                        y = nas(x)
+                        nas.train()
+                        exp = nas.export()
+                        nas.eval()
+                    else:
+                        y = nas(x)
+                        exp = nas.export()
                     exp.eval()
                     nas.eval()
                     ye = exp(x)
